@@ -448,7 +448,8 @@ func (g *LineGen) Draw(kinds string) (Line, LineStyle, string, []string) {
 		l.Text = g.text("txt")
 		l.TTL, l.Loc = g.ttl("ttl"), g.loc("loc")
 	case ':':
-		l.RType = uint16(rapid.SampledFrom([]int{13, 99, 257, 65280, 65535, 44}).Draw(t, "rtype"))
+		// also types that have a native line kind (TXT, MX, SRV, ...): a generic line may carry any type
+		l.RType = uint16(rapid.SampledFrom([]int{13, 99, 257, 65280, 65535, 44, 16, 15, 33, 2, 12, 5, 6, 64, 65, 28, 1, 0, 255}).Draw(t, "rtype"))
 		l.Text = g.text("rdata")
 		l.TTL, l.Loc = g.ttl("ttl"), g.loc("loc")
 	case 'B', 'H':
